@@ -366,7 +366,8 @@ class Monitor:
             while hasattr(r_, 'rule'):
                 r_ = r_.rule
             tcls = type(r_).__name__
-            if tcls != fr.cls and not mech.startswith(tcls):
+            # (the normaliser `Simplify` is part of nearly every composite rule: its recorded findings keep their key)
+            if tcls != fr.cls and fr.cls != 'Simplify' and not mech.startswith(tcls):
                 mech = tcls + '>' + mech
         desc = '%s.eval(%s)%s -> %s : %s; draws %s' % (
             fr.cls, O.show(fr.e_sh)[:160], (' under ' + ', '.join(O.show(c) for c in conds)[:120]) if conds else '',
